@@ -46,6 +46,12 @@ impl LinkNameMatcher {
 
 impl Matcher for LinkNameMatcher {
     fn matches(&self, file_info: &WalkEntry, _: &mut MatcherIO) -> bool {
+        // A link that -L/-H/-follow resolves is examined as its target, which is
+        // not a symbolic link: only broken links are still seen as links then.
+        if !file_info.file_type().is_symlink() {
+            return false;
+        }
+
         if let Some(target) = read_link_target(file_info) {
             self.pattern.matches(&target.to_string_lossy())
         } else {
